@@ -320,6 +320,9 @@ def unwrap(y):
 def same_result(name, r_tc, r_td, tcA, tdB, fields, values=True, top=True):
     """-> None if the property holds for this pair, else a short reason"""
     cls = type(tcA)
+    if isinstance(r_td, (NonTensorData, NonTensorStack)) or isinstance(r_tc, (NonTensorData, NonTensorStack)):
+        # a non-tensor entry is a value (the payloads), not a tensordict result to be re-wrapped
+        return None if canon(r_tc, values=values) == canon(r_td, values=values) else "non-tensor entry differs"
     if r_td is tdB:
         # the receiver itself: the tensorclass must come back (the same object, or the same class around the same tensordict)
         if r_tc is tcA or (type(r_tc) is cls and r_tc._tensordict is tcA._tensordict):
